@@ -493,7 +493,7 @@ def c03(tier, seed):
 
 def transport(name, timeout=3000, **over):
     c = dict(FullRollback=True, OneWayT=False, Stateful=True, NonceMode="lo", MaxSend=2, Depth=4, BadBudget=1,
-             SetBudget=1, RekeyBudget=0, SmallBufs=True, BigBudget=0, PayBase=70, EmitEdges=True)
+             SetBudget=1, RekeyBudget=0, SmallBufs=True, BigBudget=0, PayBase=70, EmitEdges=True, XN1=0, XN2=0, XN3=0, XN4=0)
     c.update(over)
     # every edge is followed by a probe round trip (the edge cover alone compares the reported counters only)
     c.setdefault("Probes", True)
@@ -525,7 +525,15 @@ def len_legs(seed, configs):
     base.pop("PayBase", None)
     a = rnd.choice(PAY_ALIGNED)
     b = rnd.choice([0, rnd.randrange(1, 64), rnd.randrange(256, 4096), rnd.randrange(4096, 65000)])
-    return [(name + "-lenA", dict(base, PayBase=a)), (name + "-lenB", dict(base, PayBase=b))]
+    # ... and seed-derived counters between the fixed low values and 2^32: 2^e + d (one with e < 32 and every lower bit
+    # random, one with e >= 32 and 24 random low bits), offered wherever the model offers a nonce
+    e1 = rnd.randrange(9, 32)
+    xn = dict(XN1=e1, XN2=rnd.randrange(1, 2 ** e1), XN3=rnd.randrange(32, 63), XN4=rnd.randrange(2 ** 16, 2 ** 24))
+    xa = dict(base, PayBase=a, **xn, SetBudget=max(1, base.get("SetBudget", 1)))
+    # the second one in stateless mode (every write and read names its counter; the bytes under each are compared)
+    xb = dict(base, PayBase=b, **xn, Stateful=False, SetBudget=0,
+              Depth=min(base["Depth"], 2), MaxSend=1)
+    return [(name + "-lenA", xa), (name + "-lenB", xb)]
 
 
 def tlegs(prop, seed, configs, per_scn=1):
